@@ -1083,8 +1083,15 @@ pub fn generate(seed: u64) -> C11Scenario {
         project.data.clear();
     }
     let mut parts = gen::gen_config_parts(&mut rc, project.bundle.as_deref());
+    let mut convert_to_path = false;
     if project.convert {
-        parts.convert_sourcemap = Some("sourcemap.json".to_owned());
+        if rc.chance(1, 3) {
+            // target = path mode with nested aliases instead of Roblox instance paths
+            parts.convert_path_aliases = Some(project.input.clone());
+            convert_to_path = true;
+        } else {
+            parts.convert_sourcemap = Some("sourcemap.json".to_owned());
+        }
     }
     if !minify && rc.chance(1, 5) {
         // top-level filters: files they exclude are skipped entirely (no output)
@@ -1099,7 +1106,7 @@ pub fn generate(seed: u64) -> C11Scenario {
     let config_text = parts.to_text();
     let mut invocation =
         gen::gen_invocation(&mut rk, &project, &config_text, true, !real, backend);
-    if project.convert {
+    if project.convert && !convert_to_path {
         // the sourcemap sits next to the configuration file
         let config_path = invocation
             .extra_entries
@@ -1738,14 +1745,14 @@ impl Property for C11 {
         }
     }
     fn rule_text(&self) -> String {
-        "Each simulated run: a PRNG-generated project (1-8 Lua sources in nested directories with awkward names, non-Lua files, optional bundling DAG with data files), configuration (default/empty/random rule lists over all rules, 3 generators), invocation shape (file|dir input; no|file|dir|new output; fail-fast) and fault plan (content faults, persistent or n-th-call read/write faults, structural EISDIR/ENOTDIR) is executed on SimFs (or the real Memory arm) under a chosen enumeration order and std hash seed, compared with a fault-free reference run without the bad files, re-executed under another order+hash seed, and run a second time over its own result. evaluations = darklua process() executions. A run is non-trivial when it has >= 2 sources and (>= 1 injected fault fired or >= 2 distinct orders were compared); distinct = distinct normalised op-log (I/O signature) among non-trivial runs.".to_owned()
+        "The first indices enumerate completely every single fault placement (and, thorough, every pair) over three fixed projects. Each further simulated run: a PRNG-generated project (1-8 Lua sources in nested directories with awkward names, non-Lua files, optional bundling DAG (path or luau mode) with data files and .luaurc aliases, or convert_require through a Rojo sourcemap or to nested path aliases, requires with and without extension, optional top-level file filters), configuration (default/empty/random rule lists over all rules, 3 generators), invocation shape (file|dir input; no|file|dir|new output; fail-fast) and fault plan (content faults, persistent or n-th-call read/write faults, structural EISDIR/ENOTDIR) is executed on SimFs (or the real Memory arm, or the real file system through the real binary or the library) under a chosen enumeration order and std hash seed, compared with a fault-free reference run without the bad files, re-executed under another order+hash seed, and run a second time over its own result. evaluations = darklua process() executions. A run is non-trivial when it has >= 2 sources and (>= 1 injected fault fired or >= 2 distinct orders were compared); distinct = distinct normalised op-log (I/O signature) among non-trivial runs.".to_owned()
     }
     fn assumptions(&self) -> Vec<String> {
         vec![
             "A clean batch is evidence over the sampled scenarios, not proof.".to_owned(),
             "SimFs models the FileSystem arm of resources.rs call by call; faults only a kernel can produce (EIO, ENOSPC mid-file) reach darklua solely through SimFs.".to_owned(),
             "The semantic correctness of the rules is not judged (C01-C09, C12-C18 are not claimed); outputs are compared with a reference run of the same code.".to_owned(),
-            "Top-level apply_to_files/skip_files are not generated for C11 (file selection is C20).".to_owned(),
+            "Top-level apply_to_files/skip_files use 8 glob patterns of the `**` / `*` / literal subset, evaluated by the harness itself; whether darklua's glob engine is right on other patterns is C20, not claimed.".to_owned(),
         ]
     }
     fn components(&self) -> serde_json::Value {
